@@ -41,7 +41,7 @@ CLAIMED = {
 }
 
 PARTIAL = {
- "C12": ("Coq theorems on the sender-side mechanisms for ALL states: a packet leaves the send queue with the next id, never as a stale TimeSensitive packet, flagged for retransmission exactly when Persistent/Reliable; pending entries inherit the flag; an acknowledged fragment is marked and a marked fragment or one whose packet the peer moved past is dropped from the resend queue without transmission; and over ALL sequences of HalfConnection operations (C12_retransmission_kept): a fragment scheduled for (re)transmission stays scheduled until it is acknowledged or its packet is released from the window — flush only removes dead entries and re-queues every entry it transmits. The counts over emitted frames (at most once; nothing after ack/skip; TimeSensitive staleness; retransmission until acknowledged) are decided on the implementation's decoded frames by the transmission and stall oracles and through the model correspondence: PARTIAL.", "DESIGN.md §5 C12"),
+ "C12": ("Coq theorems on the model: DataFrameEmitter::push records a fragment reference in exactly the frame that carries its datagram iff the fragment is to be retransmitted, a refused push leaves it in no frame, finalize logs exactly the recorded references (EmitRefs.v); Coq theorems on the sender-side mechanisms for ALL states: a packet leaves the send queue with the next id, never as a stale TimeSensitive packet, flagged for retransmission exactly when Persistent/Reliable; pending entries inherit the flag; an acknowledged fragment is marked and a marked fragment or one whose packet the peer moved past is dropped from the resend queue without transmission; and over ALL sequences of HalfConnection operations (C12_retransmission_kept): a fragment scheduled for (re)transmission stays scheduled until it is acknowledged or its packet is released from the window — flush only removes dead entries and re-queues every entry it transmits. The counts over emitted frames (at most once; nothing after ack/skip; TimeSensitive staleness; retransmission until acknowledged) are decided on the implementation's decoded frames by the transmission and stall oracles and through the model correspondence: PARTIAL.", "DESIGN.md §5 C12"),
  "C13": ("Coq theorems: X <= ceiling in every reachable controller state; data, ack and sync frames are only started with credit >= 0; step() caps the credit at round(X*rtt); frame length formula; and for a whole flush() of the HalfConnection (ack, data and sync frames through all emit loops): credit' = credit - bytes emitted exactly, nothing is emitted on a negative credit, all frames but the last fit in the credit (C13_flush_charges_every_byte / C13_flush_within_credit). The real-valued interval bound ceiling*(interval+rtt)+1472 is checked with the virtual clock on the implementation's frames by the wire-rate oracle, not derived through binary64 arithmetic: PARTIAL.", "DESIGN.md §5 C13"),
  "C01": ("Coq theorem over ALL histories of the receiver (ReceiverOrder.v): for any sequence of datagrams with arbitrary contents, receive() calls and resynchronisation requests, every packet handed to the application carries a (channel, absolute packet id) tag with strictly increasing ids per channel - nothing twice, nothing out of order on a channel, across wrap-around of the 20-bit ids and of the slot arrays (window sizes dividing 2^20, at most 2^19); and every packet handed out is a production of the assembly window for exactly that channel and id, with the data the assembly returned (ReceiverData.v). Plus component theorems for ALL inputs: consecutive sender ids carrying the submitted bytes/channel, a frame id accepted once is outside the receive window, one packet per slot generation, exact codec round trip, exact fragmentation and any-order reassembly. Their composition into the network-level per-channel subsequence theorem (window agreement of 20-bit ids under bounded staleness) is NOT proved; the end-to-end statement is decided on the implementation by pair/ideal/live/reuse streams (loss, dup, reorder, wrap-around, windows 2..4096) with unique payloads and the subsequence oracle: PARTIAL.", "DESIGN.md §5 C01"),
  "C02": ("Coq theorems: the receive window only advances over slots without undelivered data (a stored Reliable packet is never skipped by the receiver), sync frames are due whenever something is unacknowledged, the rate floor holds on expiry, flush() always terminates (C03), and a Reliable fragment once scheduled stays scheduled through every operation sequence until acknowledged or released (C02_retransmission_kept). End-to-end ordering w.r.t. submission order and bounded-time delivery are decided by the reliable-order and stall oracles on faulty / blackout / long loss-free streams: PARTIAL.", "DESIGN.md §5 C02"),
